@@ -33,6 +33,7 @@ def getHeader (messageLength : Nat) : Nat × Bytes :=
 /-- `Coder.Encode(m, buf)`; `buf` may be nil (`Size` passes nil), which only matters through `len`. -/
 def encode (m : Msg) (buf : Bytes) : Except Err EncRes :=
   if m.token.length > maxTokenSize then .error .badToken
+  else if m.code > 255 then .error .badCode                   -- `codes.Code` is a uint16, the header has one byte
   else do
     let payloadLen := m.payload.length
     let payloadLen := if payloadLen > 0 then payloadLen + 1 else payloadLen
